@@ -154,7 +154,7 @@ def shadowStep (p : PSys) (line : String) : Option (Option (PSys × Option (List
   | ["rb", x, n] => (shadowReader p x (Drv.nat! n) (.readBytes (sideB x) (Drv.nat! n))).map some
   | ["pk", x, n] => (shadowReader p x (Drv.nat! n) (.peek (sideB x) (Drv.nat! n))).map some
   | ["dc", x, n] => quiet (shadowReader p x (Drv.nat! n) (.discard (sideB x) (Drv.nat! n)))
-  | ["rbyte", x] => quiet (shadowReader p x 1 (.readByte (sideB x)))
+  | ["rbyte", x] => (shadowReader p x 1 (.readByte (sideB x))).map some
   | ["rs", x, n] => (shadowReader p x (Drv.nat! n) (.readString (sideB x) (Drv.nat! n))).map some
   | ["rd", x, n] => if Drv.nat! n = 0 then some (some (p, none)) else quiet (shadowReader p x 1 (.readInto (sideB x) (Drv.nat! n)))
   | ["rel", x] => plain (pstep p (.release (sideB x)))
